@@ -572,6 +572,23 @@ class Lib:
             else:
                 msg = '<msg>'
             return Opaque('Error', msg=msg, site=e['line'], file=e['_file'])
+        if last in ('bail', 'ensure'):
+            # anyhow: bail!(..) = return Err(anyhow!(..)); ensure!(cond, ..) = if !cond { bail!(..) }
+            from .interp import ReturnEx
+            margs = list(e['args'])
+            if last == 'ensure':
+                cond = I.deref(I.eval(margs[0]))
+                margs = margs[1:]
+                if I.branch(cond):
+                    return UNIT
+            args = [I.eval(a) for a in margs]
+            msg = '<msg>'
+            if args and isinstance(args[0], str):
+                try:
+                    msg = self.format(args)
+                except Unsupported:
+                    pass
+            raise ReturnEx(err(Opaque('Error', msg=msg, site=e['line'], file=e['_file'])))
         if last in ('write', 'writeln'):
             args = [I.eval(a) for a in e['args']]
             fm = args[0]
@@ -787,8 +804,47 @@ class Lib:
             # synchronisation objects: identity matters only for objects shared between targets (statics), see path_value
             I.fresh_counter['syncobj'] = I.fresh_counter.get('syncobj', 0) + 1
             return Opaque('SyncObj', kind=segs[-2], shared=None, oid=I.fresh_counter['syncobj'], inner=(I.deref(args[0]) if args else UNIT))
-        if last2 in ('String::new',):
+        if last2 in ('mem::take', 'mem::replace', 'mem::swap'):
+            r = I.as_ref(args[0]) or args[0]
+            if not isinstance(r, Ref):
+                raise Unsupported('%s through a non-reference' % last2, node)
+            old = I.deref(r)
+            if last2 == 'mem::replace':
+                I.store_at(r, I.deref(args[1]))
+                return old
+            if last2 == 'mem::swap':
+                r2 = I.as_ref(args[1]) or args[1]
+                if not isinstance(r2, Ref):
+                    raise Unsupported('mem::swap through a non-reference', node)
+                other = I.deref(r2)
+                I.store_at(r, other)
+                I.store_at(r2, old)
+                return UNIT
+            # take: leaves Default::default() of the value's type behind
+            if isinstance(old, bool) or (is_sym(old) and z3.is_bool(old)):
+                dflt = False
+            elif isinstance(old, int):
+                dflt = 0
+            elif isinstance(old, str):
+                dflt = ''
+            elif isinstance(old, RVec):
+                dflt = RVec()
+            elif isinstance(old, RSet):
+                dflt = RSet(ordered=old.ordered)
+            elif isinstance(old, RMap):
+                dflt = RMap(ordered=old.ordered)
+            elif isinstance(old, REnum) and old.ty == 'Option':
+                dflt = NONE
+            else:
+                raise Unsupported('mem::take of %r' % (old,), node)
+            I.store_at(r, dflt)
+            return old
+        if last2 in ('slice::from_ref', 'slice::from_mut'):
+            return RVec.of([I.deref(args[0])])
+        if last2 in ('String::new', 'PathBuf::new', 'OsString::new'):
             return ''
+        if last2 == 'process::id':
+            return 4242      # (some process id: a concrete representative)
         if last2 in ('String::from', 'PathBuf::from', 'Path::new', 'OsString::from', 'OsStr::new', 'String::as_str', 'ToString::to_string',
                      'String::to_string', 'ToOwned::to_owned', 'Clone::clone', 'Into::into', 'Arc::from', 'Arc::new', 'Box::new', 'Box::pin',
                      'Rc::new', 'std::convert::identity', 'Some'.join(['', ''])):
@@ -892,11 +948,23 @@ class Lib:
     def call_method(self, ref, v, method, args, node):
         I = self.I
         MODELLED_CALLS.add('.' + method)
+        if isinstance(v, Opaque) and v.tag == 'DefaultPending':
+            # Default::default() of a collection whose type is fixed by its first use
+            if method in ('push', 'push_back', 'push_front', 'extend_from_slice', 'pop', 'first', 'last'):
+                v = RVec()
+            elif method in ('entry', 'get', 'get_mut', 'contains_key') or (method == 'insert' and len(args) == 2):
+                v = RMap()
+            elif method in ('insert', 'contains', 'remove', 'extend', 'len', 'is_empty', 'iter', 'into_iter'):
+                v = RSet()
+            else:
+                raise Unsupported('method %s on a default value of unknown type' % method, node)
+            if ref is not None:
+                I.store_at(ref, v)
         if isinstance(v, Opaque) and v.tag == 'Match' and method == 'as_str':
             return v.get('s')
         # generic, type independent ---------------------------------
         if method in ('clone', 'to_owned', 'cloned', 'borrow', 'as_ref', 'as_mut', 'to_vec', 'as_path', 'as_str', 'as_slice', 'to_path_buf',
-                      'into_boxed_str', 'as_os_str', 'to_os_string', 'into_os_string', 'deref', 'by_ref', 'copied') and not (
+                      'into_boxed_str', 'as_os_str', 'to_os_string', 'into_os_string', 'deref', 'by_ref', 'copied', 'into_owned') and not (
                 isinstance(v, Opaque) and v.tag in ('Iter',)) and not (isinstance(v, REnum) and v.ty in ('Option', 'Result') and method in ('as_ref', 'as_mut', 'cloned', 'copied')):
             if method == 'as_mut':
                 return ref
@@ -1379,6 +1447,22 @@ class Lib:
         if method == 'clear':
             I.store_at(ref, RVec())
             return UNIT
+        if method in ('sort_by', 'sort_unstable_by', 'sort_by_key', 'sort_unstable_by_key', 'sort_by_cached_key'):
+            import functools
+            vals = v.values()
+            if 'key' in method:
+                keyed = [(I.deref(I.call_value(args[0], [x], node)), x) for x in vals]
+                kk = lambda y: key_of(y) if isinstance(key_of(y), (str, int)) else repr(key_of(y))
+                out = [x for _, x in sorted(keyed, key=lambda p_: kk(p_[0]))]
+            else:
+                def cmp_(a, b):
+                    r = I.deref(I.call_value(args[0], [a, b], node))
+                    if not (isinstance(r, REnum) and r.ty == 'Ordering'):
+                        raise Unsupported('comparator result %r' % (r,), node)
+                    return {'Less': -1, 'Equal': 0, 'Greater': 1}[r.variant]
+                out = sorted(vals, key=functools.cmp_to_key(cmp_))
+            I.store_at(ref, RVec.of(out))
+            return UNIT
         if method in ('sort', 'sort_unstable', 'dedup'):
             vals = v.values()
             if method == 'dedup':
@@ -1721,8 +1805,13 @@ class Lib:
         if method == 'with_extension':
             base = s.rsplit('.', 1)[0] if '.' in s.split('/')[-1][1:] else s
             return base + ('.' + a0 if a0 else '')
-        if method == 'cmp' or method == 'eq':
+        if method == 'eq':
             return s == a0
+        if method in ('cmp', 'partial_cmp') and isinstance(a0, str):
+            # paths compare component by component, strings byte by byte
+            ka, kb = (s.split('/'), a0.split('/')) if ('/' in s or '/' in a0) else (s.encode('utf-8', 'surrogatepass'), a0.encode('utf-8', 'surrogatepass'))
+            o = REnum('Ordering', 'Less' if ka < kb else ('Greater' if ka > kb else 'Equal'))
+            return o if method == 'cmp' else some(o)
         raise Unsupported('str/Path::%s' % method, node)
 
     def path_join(self, base, rel):
@@ -1890,7 +1979,12 @@ class Lib:
                     elif method == 'or_insert':
                         nv = args[0]
                     else:
-                        raise Unsupported('Entry::or_default', node)
+                        # the value type is not known here: a lazily typed default, fixed by the first method applied to it
+                        same = [x[2] for x in m.entries.values() if x[0] is not False]
+                        proto_ = same[0] if same else None
+                        nv = (RSet(ordered=proto_.ordered) if isinstance(proto_, RSet) else RMap(ordered=proto_.ordered) if isinstance(proto_, RMap)
+                              else RVec() if isinstance(proto_, RVec) else '' if isinstance(proto_, str) else 0 if isinstance(proto_, int) and not isinstance(proto_, bool)
+                              else Opaque('DefaultPending'))
                     ent = dict(m.entries)
                     ent[k] = (True, v.get('keyv'), nv)
                     I.store_at(mref, RMap(ent, m.ordered))
